@@ -63,6 +63,9 @@ type SetA struct {
 	Status   StatusA           `json:"status"`
 	RV       int64             `json:"rv"`
 	App      string            `json:"app"` // value of the selector label; default = set name
+	// TmplLabels: "" = the template carries the selector label; "none" = no labels map; "empty" = an empty map
+	// (both admitted by the CRD, which validates nothing inside template / selector)
+	TmplLabels string `json:"tmpl_labels,omitempty"`
 }
 
 type VolA struct {
@@ -132,6 +135,17 @@ func tmplOfPodSpec(spec *v1.PodSpec) int {
 	return k
 }
 
+func templateFor(s *SetA) v1.PodTemplateSpec {
+	t := template(s.Tmpl, appLabel(s))
+	switch s.TmplLabels {
+	case "none":
+		t.ObjectMeta.Labels = nil
+	case "empty":
+		t.ObjectMeta.Labels = map[string]string{}
+	}
+	return t
+}
+
 func claimTemplate(name string) v1.PersistentVolumeClaim {
 	return v1.PersistentVolumeClaim{ObjectMeta: metav1.ObjectMeta{Name: name}}
 }
@@ -145,7 +159,7 @@ func (s *SetA) object() *apps.StatefulSet {
 		},
 		Spec: apps.StatefulSetSpec{
 			Replicas:             s.Replicas,
-			Template:             template(s.Tmpl, appLabel(s)),
+			Template:             templateFor(s),
 			ServiceName:          s.Service,
 			PodManagementPolicy:  apps.PodManagementPolicyType(s.Policy),
 			RevisionHistoryLimit: s.RHL,
